@@ -47,7 +47,8 @@ class SourceHandler(SourceHandlerMixin, NextTokenBaseHandler):
         super().__init__()
 
     def _indicate(self, token: Token) -> bool:
-        if token.normalized in ("UNION", "UNION ALL"):
+        # sqlparse keeps the original whitespace inside the two-word keyword (UNION\nALL)
+        if " ".join(token.normalized.split()) in ("UNION", "UNION ALL"):
             self.union_barriers.append((len(self.columns), len(self.tables)))
 
         if self.column_flag is True and bool(token.normalized == "DISTINCT"):
